@@ -8,6 +8,7 @@ renamefuzz.py, for statement shapes instead of names). MIR-based rules see the o
   negate_if     `if c { A } else { B }`        ->  `if !c { B } else { A }`
   reverse_arms  arms with distinct variant patterns, no guards, no catch-all: reversed
   hoist_args    `f(g(a), b);`                  ->  `let __a = g(a); f(__a, b);`             (calls in statement position)
+  letelse_to_match / match_to_iflet / iflet_to_match: the three spellings of a refutable binding
 """
 import itertools
 
@@ -286,5 +287,95 @@ def hoist_args(raw):
     return raw, n
 
 
+def _rebind(pat, suffix_ids):
+    """copy of a pattern whose bindings get fresh ids; returns (pattern, [(old id, new id, name, ty)])"""
+    import copy
+    p2 = copy.deepcopy(pat)
+    out = []
+    for x in _walk_nodes(p2):
+        if x.get("k") == "PBinding":
+            new = _fresh("fzb")
+            out.append((x["id"], new, x["name"], x.get("ty")))
+            x["id"] = new
+    return p2, out
+
+
+def letelse_to_match(raw):
+    """`let P(x) = e else { D };`  ->  `let x = match e { P(x') => x', _ => D };`  (patterns with exactly one binding)"""
+    n = 0
+    for crate in raw.values():
+        for h in crate["hir"]:
+            if "body" not in h:
+                continue
+            for st in _walk_nodes(h["body"]):
+                if st.get("k") != "SLet" or "els" not in st or "init" not in st:
+                    continue
+                binds = [x for x in _walk_nodes(st["pat"]) if x.get("k") == "PBinding"]
+                if len(binds) != 1 or binds[0].get("sub") or binds[0].get("mode", "BindingMode(No, Not)") != "BindingMode(No, Not)":
+                    continue
+                b = binds[0]
+                p2, m = _rebind(st["pat"], None)
+                sp = st.get("sp", "")
+                arm_ok = {"pat": p2, "body": _local(b["name"], m[0][1], b.get("ty"), sp), "sp": sp}
+                arm_no = {"pat": {"k": "PWild", "ty": st["pat"].get("ty")}, "body": st["els"], "sp": sp}
+                st["init"] = {"k": "Match", "src": "Normal", "scrut": st["init"], "arms": [arm_ok, arm_no], "ty": b.get("ty"), "sp": sp}
+                st["pat"] = {"k": "PBinding", "name": b["name"], "id": b["id"], "mode": "BindingMode(No, Not)", "ty": b.get("ty")}
+                del st["els"]
+                n += 1
+    return raw, n
+
+
+def _catch_all(p):
+    return p.get("k") == "PWild"
+
+
+def match_to_iflet(raw):
+    """`match e { P => A, _ => B }`  ->  `if let P = e { A } else { B }`  (two arms, no guard, second arm `_`)"""
+    n = 0
+    for crate in raw.values():
+        for h in crate["hir"]:
+            if "body" not in h:
+                continue
+            for x in list(_walk_nodes(h["body"])):
+                if x.get("k") != "Match" or x.get("src") != "Normal" or x.get("x") or len(x.get("arms", [])) != 2:
+                    continue
+                a0, a1 = x["arms"]
+                if "guard" in a0 or "guard" in a1 or not _catch_all(a1["pat"]) or _catch_all(a0["pat"]):
+                    continue
+                sp = x.get("sp", "")
+                cond = {"k": "LetExpr", "pat": a0["pat"], "init": x["scrut"], "ty": "bool", "sp": sp}
+                ty = x.get("ty")
+                for k_ in list(x.keys()):
+                    del x[k_]
+                x.update({"k": "If", "cond": cond, "then": a0["body"], "else": a1["body"], "ty": ty, "sp": sp})
+                n += 1
+    return raw, n
+
+
+def iflet_to_match(raw):
+    """`if let P = e { A } else { B }`  ->  `match e { P => A, _ => B }`  (a single `let` condition)"""
+    n = 0
+    for crate in raw.values():
+        for h in crate["hir"]:
+            if "body" not in h:
+                continue
+            for x in list(_walk_nodes(h["body"])):
+                if x.get("k") != "If" or "else" not in x or x.get("x"):
+                    continue
+                c = _strip_block(x["cond"])
+                if c.get("k") != "LetExpr" or "pat" not in c or "init" not in c:
+                    continue
+                sp = x.get("sp", "")
+                arms = [{"pat": c["pat"], "body": x["then"], "sp": sp},
+                        {"pat": {"k": "PWild", "ty": c["pat"].get("ty")}, "body": x["else"], "sp": sp}]
+                ty = x.get("ty")
+                for k_ in list(x.keys()):
+                    del x[k_]
+                x.update({"k": "Match", "src": "Normal", "scrut": c["init"], "arms": arms, "ty": ty, "sp": sp})
+                n += 1
+    return raw, n
+
+
 MODES = {"named_tail": named_tail, "early_return": early_return, "bind_cond": bind_cond,
-         "negate_if": negate_if, "reverse_arms": reverse_arms, "hoist_args": hoist_args}
+         "negate_if": negate_if, "reverse_arms": reverse_arms, "hoist_args": hoist_args,
+         "letelse_to_match": letelse_to_match, "match_to_iflet": match_to_iflet, "iflet_to_match": iflet_to_match}
